@@ -792,6 +792,10 @@ def unmarshal_array(ct, data, offset, lendian, oobFDs):
         nbytes, value = unmarshallers[tcode](
             tsig, data, offset, lendian, oobFDs)
 
+        if nbytes == 0:
+            raise MarshallingError(
+                'Invalid array encoding: zero-length array element')
+
         offset += nbytes
         values.append(value)
 
